@@ -50,6 +50,11 @@ func zzvNewEnv(bufSize, width int) *zzvEnv {
 
 func (e *zzvEnv) inject(write bool) bool {
 	r := &zzvReq{isWrite: write, addr: verif.U64(), pid: vm.PID(verif.U32())}
+	// forwarded copies carry new IDs, so the monitor recognises a request on
+	// the bottom port by its content: addresses are pairwise distinct
+	for _, o := range e.reqs {
+		verif.Assume(o.addr != r.addr)
+	}
 	if write {
 		r.data = verif.Bytes(4)
 		r.mask = []bool{verif.Bool(), verif.Bool(), verif.Bool(), verif.Bool()}
